@@ -542,8 +542,9 @@ def sections_sorted(ctx, rule):
     """C08.R5."""
     b = ctx.body("decoder::decode_index")
     fn = b.path
-    sec = typed_vars(b, "Vec<types::SourceMapSection>")
-    if not ctx.check(len(sec) == 1, rule, fn, "sections-vec", "decode_index collects sections into one vector"):
+    srt = [t for bi, t in b.calls() if q.nice(t.get("callee")) in ("slice::sort_by_key", "slice::sort_unstable_by_key")]
+    sec = [q.root_local(q.arg_expr(b, srt[0], 0))] if len(srt) == 1 else []
+    if not ctx.check(len(sec) == 1 and sec[0] is not None and b.local_ty(sec[0]).endswith("Vec<types::SourceMapSection>"), rule, fn, "sections-vec", "decode_index collects sections into one vector"):
         return
     roles = {sec[0]: "sections"}
     sorts = [(bi, q.shape(b.expr_of_call(t), roles)) for bi, t in b.calls() if q.nice(t.get("callee")) in ("slice::sort_by_key", "slice::sort_unstable_by_key")]
@@ -553,16 +554,29 @@ def sections_sorted(ctx, rule):
     ok = len(ctor) == 1 and len(sorts) == 1 and b.dominates(sorts[0][0], ctor[0][0]) and ",sections," in ctor[0][1]
     ctx.check(ok, rule, fn, "sort-before-construct", "the sort dominates the construction of the index from that vector")
     pushes = [(bi, t) for bi, t in q.calls_to(b, "Vec::<T, A>::push") if q.root_local(q.arg_expr(b, t, 0)) == sec[0]]
-    ok = len(pushes) == 1 and len(sorts) == 1 and not b.reaches(sorts[0][0], pushes[0][0])
-    ctx.check(ok, rule, fn, "no-push-after-sort", "no section is added after the sort")
-    if pushes:
-        heads = [bi for bi, t in q.calls_to(b, "Iterator::next")]
-        if heads:
-            entry = [tb for v, tb in b.blocks[b.blocks[heads[0]]["term"]["t"]]["term"].get("arms", []) if v == 1]
-            ctx.check(bool(entry) and loop_passes(b, entry[0], heads[0], [pushes[0][0]]), rule, fn, "section:no-skip", "every raw section becomes a section of the index (none is skipped)")
-        sh = q.shape(q.arg_expr(b, pushes[0][1], 1), roles)
-        ok = q.wild("SourceMapSection::new(tuple(*.offset.line,*.offset.column),*.url,*)", sh)
-        ctx.check(ok, rule, fn, "section:new", "each section is built from (offset.line, offset.column), url and the decoded embedded map", detail=sh[:300])
+    chain = [sh for sh, _, _ in q.def_shapes(b, sec[0], {})]
+    if not pushes and len(chain) == 1 and q.wild("try(Iterator::collect(Iterator::map(IntoIterator::into_iter(Option::unwrap_or_default(arg1.sections)),closure:*)))", chain[0]):
+        # iterator form: every raw section is mapped to a section, the first error aborts (collect into Result)
+        ctx.ok(rule, fn, "no-push-after-sort", "no section is added after the sort (the vector is collected once)")
+        ctx.ok(rule, fn, "section:no-skip", "every raw section becomes a section of the index (map over all of them)")
+        cl = None
+        for bi2, si2, kind2, node2 in b.defs.get(sec[0], []):
+            e2 = b.expr_of_rvalue(node2["rv"]) if kind2 == "assign" else b.expr_of_call(node2)
+            cl = cl or q.callable_body(e2)
+        oks = [sh for sh, _, _ in q.def_shapes(cl, 0, {}) if sh.startswith("Result::Ok{")] if cl is not None else []
+        ok = len(oks) == 1 and q.wild("Result::Ok{0:SourceMapSection::new(tuple(arg2.offset.line,arg2.offset.column),arg2.url,*)}", oks[0])
+        ctx.check(ok, rule, fn, "section:new", "each section is built from (offset.line, offset.column), url and the decoded embedded map", detail=str(oks)[:300])
+    else:
+        ok = len(pushes) == 1 and len(sorts) == 1 and not b.reaches(sorts[0][0], pushes[0][0])
+        ctx.check(ok, rule, fn, "no-push-after-sort", "no section is added after the sort")
+        if pushes:
+            heads = [bi for bi, t in q.calls_to(b, "Iterator::next")]
+            if heads:
+                entry = [tb for v, tb in b.blocks[b.blocks[heads[0]]["term"]["t"]]["term"].get("arms", []) if v == 1]
+                ctx.check(bool(entry) and loop_passes(b, entry[0], heads[0], [pushes[0][0]]), rule, fn, "section:no-skip", "every raw section becomes a section of the index (none is skipped)")
+            sh = q.shape(q.arg_expr(b, pushes[0][1], 1), roles)
+            ok = q.wild("SourceMapSection::new(tuple(*.offset.line,*.offset.column),*.url,*)", sh)
+            ctx.check(ok, rule, fn, "section:new", "each section is built from (offset.line, offset.column), url and the decoded embedded map", detail=sh[:300])
     w = field_writers(ctx.facts, "types::SourceMapSection", "offset")
     got = sorted(p for p, (bb, k) in w.items() if not bb.derived)
     ctx.check(got == ["types::SourceMapSection::new"], rule, "types::SourceMapSection", "offset:immutable", "a section's offset is only set by its constructor", detail=str(got))
